@@ -203,7 +203,7 @@ theorem negShape_digits (ds : List Nat) (sci : Int) (o : WOpts) (hneg : sci < 0)
     · simp only [c2, if_true]
       exact ⟨by simp, by simp, by simp, by simp, by simp [leadingZeros], 0, 0, by simp, by simp [hs]⟩
     · simp only [c2, if_false, Bool.false_eq_true]
-      refine ⟨by simp, by simp, by simp, ?_, by simp [leadingZeros], 0, 1 + (minExactDigits 1 o - 1), ?_, ?_⟩
+      refine ⟨by simp, by simp, by simp, ?_, by simp [leadingZeros], 0, 1 + (minExactDigits 2 o - 2), ?_, ?_⟩
       · intro fs hfs x hx
         simp only [Option.some.injEq] at hfs
         subst hfs
